@@ -136,6 +136,13 @@ class Gen:
         if len(conc) >= 2 and r.random() < 0.5:
             ms = r.sample(conc, r.choice([2, 2, 3]) if len(conc) >= 3 else 2)
             P["unions"].append({"name": self.fresh("Un"), "members": ms, "named": r.random() < 0.5})
+        if P["unions"]:
+            # an unsupported alternative of a union is dropped silently by the visitors; keep re-raising handlers (typing.NoReturn) away
+            # from the classes when unions exist, so that their effect stays attributable (operations may still use them)
+            for c in P["classes"]:
+                for rs in c["resolvers"]:
+                    if rs["error_handler"] == "reraise":
+                        rs["error_handler"] = "undef"
         # operations
         for _ in range(r.choice([1, 2, 2, 3, 4])):
             self.operation("query")
@@ -252,7 +259,28 @@ class Gen:
             self.P["validators"].append(bad)
 
     # ---- defaults for input positions: returns {"kind":..., "src":...} or None (required)
+    def type_ser(self, t):
+        """is the type serializable as a whole (apischema builds the serialization method from the type; Unsupported alternatives of a union are skipped)"""
+        k = t[0]
+        if k in ("opt", "undef"):
+            return True
+        if k == "list":
+            return self.type_ser(t[1])
+        if k == "conv":
+            return self.conv(t[1])["ser"]
+        if k == "obj":
+            return all(self.type_ser(f["t"]) for f in self.cls(t[1])["fields"])
+        return True
+
     def in_default(self, t, p=0.5):
+        d = self._in_default(t, p)
+        if d is not None and d["kind"] not in ("none", "undef"):
+            tt = t[1] if t[0] == "opt" else t
+            if not self.type_ser(tt):
+                d = {**d, "kind": "unserializable"}
+        return d
+
+    def _in_default(self, t, p=0.5):
         r = self.rng
         if r.random() > p:
             return None
@@ -287,8 +315,25 @@ class Gen:
             src = self.default_obj_src(cl)
             if src is None:
                 return None
-            return {"kind": "object", "src": src, "frozen": cl["frozen"], "cls": cl["name"]}
+            kind = "object" if self.instance_serializable(cl) else "unserializable"
+            return {"kind": kind, "src": src, "frozen": cl["frozen"], "cls": cl["name"], "is_object": True}
         return None
+
+    def instance_serializable(self, cl, depth=0):
+        """is the instance built by default_obj_src (required fields given, others defaulted) serializable"""
+        for f in cl["fields"]:
+            d, t = f["default"], f["t"]
+            if d is not None:
+                if d["kind"] == "unserializable":
+                    return False
+                continue
+            if t[0] in ("opt", "list"):
+                continue
+            if t[0] == "conv" and not self.conv(t[1])["ser"]:
+                return False
+            if t[0] == "obj" and not self.instance_serializable(self.cls(t[1]), depth + 1):
+                return False
+        return True
 
     def default_obj_src(self, cl, depth=0):
         """constructor expression for an input class, required fields only (hashable when frozen and no list inside)"""
@@ -356,7 +401,7 @@ class Gen:
             else:
                 t = self.in_type(selfname=name)
                 d = self.in_default(t)
-            if d is not None and d["kind"] == "object" and not d["frozen"]:
+            if d is not None and d.get("is_object") and not d["frozen"]:
                 d = {**d, "factory": "lambda: " + d["src"]}
             fields.append({"name": self.fname(), "t": t, "alias": self.maybe_alias(), "default": d, "flatten": False})
         # flatten another input class
@@ -409,10 +454,9 @@ class Gen:
         for _ in range(r.randint(1, 4)):
             cl["fields"].append({"name": self.fname(), "t": self.out_type(selfname=name), "alias": self.maybe_alias(), "default": None, "flatten": False})
         # flatten: a class defined earlier, not an ancestor, not flattening itself, at most once
-        inherited = set(self.all_bases(name))
-        cands = [c for c in self.P["classes"] if c["role"] == "out" and c["name"] != name and c["name"] not in inherited
-                 and not self.reaches(c["name"], name) and not (set(self.all_bases(c["name"])) & inherited)
-                 and not self.flattened_anywhere(c["name"], inherited)]
+        mine = self.contributors(name)
+        cands = [c for c in self.P["classes"] if c["role"] == "out" and c["name"] != name and not self.reaches(c["name"], name)
+                 and not (self.contributors(c["name"]) & mine)]
         if cands and not interface and r.random() < 0.25:
             cl["fields"].append({"name": self.fname(), "t": ["obj", r.choice(cands)["name"]], "alias": None, "default": None, "flatten": True})
         for _ in range(r.choice([0, 0, 1, 1, 2])):
@@ -420,6 +464,16 @@ class Gen:
             cl["resolvers"].append({"name": rn, "alias": self.maybe_alias(0.25), "params": self.params(), "ret": self.out_type(selfname=name),
                                     "error_handler": self.handler_kind()})
         return cl
+
+    def contributors(self, cname):
+        """classes whose fields / resolvers end up in the GraphQL type of cname (itself, bases, flattened classes, recursively)"""
+        out = {cname}
+        for b in self.cls(cname)["bases"]:
+            out |= self.contributors(b)
+        for f in self.cls(cname)["fields"]:
+            if f["flatten"]:
+                out |= self.contributors(f["t"][1])
+        return out
 
     def handler_kind(self):
         k = self.rng.random()
@@ -751,8 +805,8 @@ class Model:
                 fc = f["t"][1]
                 if self.classes[fc]["interface"]:
                     s.add(self.gql_name(fc, "out"))
-                else:
-                    s |= self.out_interfaces(fc)
+                # interfaces implemented by the flattened class / interface are implemented too (GraphQL: transitively)
+                s |= self.out_interfaces(fc)
         return s
 
     def ret_type(self, spec):
@@ -826,10 +880,9 @@ class Model:
                             # a flattened interface-marked class becomes an implemented interface (docs: Interfaces)
                             if self.classes[f["t"][1]]["interface"]:
                                 visit(f["t"], "out")
-                            else:
-                                for iname in self.all_bases(f["t"][1]):
-                                    if self.classes[iname]["interface"]:
-                                        visit(["obj", iname], "out")
+                            for iname in self.all_bases(f["t"][1]):
+                                if self.classes[iname]["interface"]:
+                                    visit(["obj", iname], "out")
 
         for op in self.P["ops"]:
             visit(op["ret"], "out")
@@ -847,11 +900,17 @@ class Model:
                 for f in c["fields"]:
                     if f["default"]:
                         out.add(f["default"]["kind"])
+                        if f["default"].get("is_object"):
+                            out.add("any-object")
+                            if not f["default"].get("frozen"):
+                                out.add("unhashable-object")
         for spec in self.all_callables():
             for p in spec["params"]:
                 if p["default"]:
                     out.add(p["default"]["kind"])
-                    if p["default"]["kind"] == "object" and not p["default"].get("frozen"):
+                    if p["default"].get("is_object"):
+                        out.add("any-object")
+                    if p["default"].get("is_object") and not p["default"].get("frozen"):
                         out.add("unhashable-object")
         return out
 
@@ -903,7 +962,7 @@ class Values:
             return repr(r.choice(["", "a", "hello", "été", "x y", "RED"]))
         return repr(r.choice([True, False]))
 
-    def src(self, t, depth=0, force=False):
+    def src(self, t, depth=0, force=False, exact=False):
         m, r = self.m, self.rng
         k = t[0]
         if k == "prim":
@@ -920,7 +979,7 @@ class Values:
             if depth >= self.max_depth and core(t)[0] in ("obj", "union"):
                 return "[]"
             n = r.choice([1, 2]) if force else r.choice([0, 1, 2, 3])
-            return "[" + ", ".join(self.src(t[1], depth, False) for _ in range(n)) + "]"
+            return "[" + ", ".join(self.src(t[1], depth, force) for _ in range(n)) + "]"
         if k == "enum":
             return f"{t[1]}.{r.choice(m.enums[t[1]]['members'])[0]}"
         if k == "lit":
@@ -935,9 +994,10 @@ class Values:
             return self.src(["obj", r.choice(m.unions[t[1]]["members"])], depth)
         if k == "obj":
             cname = t[1]
-            if m.classes[cname]["interface"]:
+            if m.classes[cname]["interface"] and not exact:
                 cname = r.choice(m.implementers(cname))
-            parts = [f"{f['name']}={self.src(f['t'], depth + 1)}" for _, f in m.dc_fields(cname)]
+            # a flattened field holds an instance of exactly its declared class (an @interface dataclass is instantiable)
+            parts = [f"{f['name']}={self.src(f['t'], depth + 1, exact=f['flatten'])}" for _, f in m.dc_fields(cname)]
             return f"{cname}({', '.join(parts)})"
         raise ValueError(t)
 
@@ -1112,6 +1172,7 @@ class Selection:
                 d, tg = self.expect(t, None if rv is Undefined else serialize(rt, rv, aliaser=m.A_fn), rv, sub)
                 tg = _prefix(tg, "resolver:")
             data[key], tags[key] = d, _prefix(tg, flat) if flat else tg
+            tags["$edge:" + key] = flat + e["kind"]
         return data, tags
 
 
@@ -1129,6 +1190,8 @@ def first_diff(exp, got, tags, path=()):
                 return path + (k,), _tag(tags, k), exp[k], "<absent>"
             r = first_diff(exp[k], got[k], tags.get(k) if isinstance(tags, dict) else None, path + (k,))
             if r:
+                if r[1] in ("structure", "list-length") and isinstance(tags, dict) and "$edge:" + k in tags:
+                    r = (r[0], tags["$edge:" + k] + ":" + r[1], r[2], r[3])
                 return r
         for k in got:
             if k not in exp:
@@ -1206,7 +1269,7 @@ class ArgGen:
             if k == "undef" and inner[0] == "opt":
                 inner = inner[1]
                 k = "opt"
-            if k == "opt" and r.random() < 0.25 or depth > 3:
+            if k == "opt" and (r.random() < 0.25 or depth > 3):
                 return None, None
             return self.arg(inner, depth)
         if k == "list":
